@@ -20,6 +20,9 @@ def cases(draw):
     w["nvalidators"] = draw(st.integers(2, 3))
     w["schedule"] = draw(st.lists(st.integers(0, 2), min_size=4, max_size=24))
     w["threads"] = draw(st.integers(0, 11)) == 0
+    # how the validators come to exist: each with its own explicit resolver (default), all over the very same
+    # schema OBJECT with the default resolver, or later ones seeded with the first one's store
+    w["construction"] = draw(st.sampled_from(["own-resolver", "own-resolver", "same-schema-object", "seeded-from-first-store"]))
     # make errors plentiful: an extra always-failing-somewhere property with a format and a pattern
     return w
 
@@ -56,10 +59,31 @@ def checker_for(k):
     return fc
 
 
-def build(case, k):
+def build(case, k, shared=None):
+    """shared: dict carried through one build round (the shared schema object / the first validator)."""
+    how = case.get("construction", "own-resolver")
+    if how == "same-schema-object" and shared is not None:
+        # validators over the identical schema object, each asking for the default resolver
+        if "root" not in shared:
+            shared["root"] = variant(case, 0)["root"]
+        cls = impl.CLS[case["draft"]]
+        return cls(shared["root"], format_checker=checker_for(0))
     c = variant(case, k)
-    v = GW.build_validator(c)
+    if how == "seeded-from-first-store" and shared is not None and "first" in shared:
+        # the documented way to pre-load documents: pass a mapping as `store` -- here the first resolver's
+        extra = dict((u, copy.deepcopy(dd)) for u, dd in c["docs"].items() if c["via"].get(u) in ("store", "store#"))
+        cls = impl.CLS[c["draft"]]
+        root = copy.deepcopy(c["root"])
+        resolver = impl.validators.RefResolver.from_schema(root, id_of=cls.ID_OF, store=shared["first"].resolver.store,
+                                                           handlers={"http": GW.Handler(c)})
+        for u, dd in extra.items():
+            resolver.store[u] = dd
+        v = cls(root, resolver=resolver)
+    else:
+        v = GW.build_validator(c)
     v.format_checker = checker_for(k)
+    if shared is not None and "first" not in shared:
+        shared["first"] = v
     return v
 
 
@@ -73,7 +97,11 @@ def instance_for(case, k):
 
 def solo(case, k):
     try:
-        return [impl.errkey(e, instance=True) for e in build(case, k).iter_errors(instance_for(case, k))], None
+        if case.get("construction") == "same-schema-object":
+            v = impl.CLS[case["draft"]](variant(case, 0)["root"], format_checker=checker_for(0))
+        else:
+            v = build(case, k)
+        return [impl.errkey(e, instance=True) for e in v.iter_errors(instance_for(case, k))], None
     except impl.exceptions.RefResolutionError:
         return None, "RefResolutionError"
 
@@ -93,7 +121,8 @@ class C18(Prop):
             "schedule with >= 2 switches while some iterator is suspended inside a pushed scope.")
     ASSUMPTIONS = ["generator interleavings are owned by the harness; thread schedules are only provoked "
                    "(sys.setswitchinterval), not enumerated"]
-    GATES = {"suspended-in-scope": 100, "exhaustive-interleavings": 100, "threads": 20}
+    GATES = {"suspended-in-scope": 100, "exhaustive-interleavings": 100, "threads": 20,
+             "construction:same-schema-object": 50, "construction:seeded-from-first-store": 50}
     MIN_NONTRIVIAL = 100
 
     def strategy(self, tier):
@@ -133,8 +162,11 @@ class C18(Prop):
             solos.append(s)
             # the "alone" run itself must be right: a cache shared between validator objects (module or class
             # level) also corrupts sequential use, where interleaved == alone would hide it.  Reference: O-SPEC.
-            vc = variant(case, k)
-            ctx = spec.Ctx(case["draft"], resolver=GW.oracle_resolver(vc), fmt=lambda name, x, _k=k: (
+            same = case.get("construction") == "same-schema-object"
+            vc = variant(case, 0 if same else k)
+            if same:
+                vc = dict(vc, docs={}, via={})        # the default resolver knows no external documents
+            ctx = spec.Ctx(case["draft"], resolver=GW.oracle_resolver(vc), fmt=lambda name, x, _k=(0 if same else k): (
                 name != "vf" or bool(checker_for(_k).conforms(x, "vf"))))
             try:
                 want = spec.valid(ctx, vc["root"], instance_for(case, k), GW.root_uri(vc))
@@ -146,6 +178,7 @@ class C18(Prop):
                          "validator %d of %d (variant worlds colliding on URIs): O-SPEC says %s, implementation %d "
                          "errors; refs met %r" % (k, n, "valid" if want else "invalid", len(s), ctx.ref_log[:5]))
                 return res
+        res.labels.append("construction:" + str(case.get("construction", "own-resolver")))
         total = sum(len(s) + 1 for s in solos)
         if sum(len(s) for s in solos) == 0:
             res.excluded = "no-errors"
@@ -169,7 +202,8 @@ class C18(Prop):
         return res
 
     def run_schedule(self, res, case, n, sc, solos):
-        vs = [build(case, k) for k in range(n)]
+        shared = {}
+        vs = [build(case, k, shared) for k in range(n)]
         its = [vs[k].iter_errors(instance_for(case, k)) for k in range(n)]
         depth0 = [impl.stack_depth(v.resolver) for v in vs]
         scope0 = [v.resolver.resolution_scope for v in vs]
@@ -215,7 +249,8 @@ class C18(Prop):
         sys.setswitchinterval(1e-6)
         bad = []
         try:
-            vs = [build(case, k) for k in range(n)]
+            shared = {}
+            vs = [build(case, k, shared) for k in range(n)]
 
             def work(k):
                 for _ in range(40):
